@@ -316,6 +316,26 @@ fn encode_udp_packet(payload: &[u8]) -> Result<Bytes> {
     Ok(buf.freeze())
 }
 
+/// Verification hooks (compiled only with `--cfg anytls_rs_verif`).
+#[cfg(anytls_rs_verif)]
+pub mod udp_client_verif_hooks {
+    pub fn encode_initial_request(target: std::net::SocketAddr) -> Result<bytes::Bytes, String> {
+        super::encode_initial_request(target).map_err(|e| e.to_string())
+    }
+
+    pub fn encode_udp_packet(payload: &[u8]) -> Result<bytes::Bytes, String> {
+        super::encode_udp_packet(payload).map_err(|e| e.to_string())
+    }
+
+    pub async fn read_udp_packet(
+        reader: &mut crate::session::StreamReader,
+    ) -> Result<Vec<u8>, String> {
+        super::read_udp_packet(reader)
+            .await
+            .map_err(|e| e.to_string())
+    }
+}
+
 #[cfg(test)]
 mod tests {
     use super::*;
